@@ -112,7 +112,7 @@ pub fn run(ctx: &Ctx) -> EvidenceMeta {
         "transmit-construction",
         ctx.n(4_000, 200_000),
         || {
-            (crate::gen::bytes_len(prop_oneof![4 => 0usize..=64, 2 => 0usize..=1500, 1 => 65_500usize..=65_556]), any::<bool>(), crate::gen::sockaddr_strategy(), crate::gen::sockaddr_strategy())
+            (crate::gen::bytes_len(prop_oneof![4 => 0usize..=64, 2 => 0usize..=1500, 1 => 65_500usize..=65_556]), any::<bool>(), crate::gen::endpoint_strategy(), crate::gen::endpoint_strategy())
                 .prop_map(|(b, tcp, local, to)| TxCase { bytes: Hex(b), tcp, local, to })
         },
         tx_test,
